@@ -348,8 +348,6 @@ func (s *Server) NewClientConn(conn io.ReadWriteCloser, remoteAddr string) *Clie
 		ClientFileTransferMgr: NewClientFileTransferMgr(),
 	}
 
-	s.ClientMgr.Add(clientConn)
-
 	return clientConn
 }
 
@@ -407,7 +405,6 @@ func (s *Server) handleNewConnection(ctx context.Context, rwc io.ReadWriteCloser
 	}
 
 	c := s.NewClientConn(rwc, remoteAddr)
-	defer c.Disconnect()
 
 	encodedPassword := clientLogin.GetField(FieldUserPassword).Data
 	c.Version = clientLogin.GetField(FieldVersion).Data
@@ -441,6 +438,10 @@ func (s *Server) handleNewConnection(ctx context.Context, rwc io.ReadWriteCloser
 	if c.Account == nil {
 		return nil
 	}
+
+	// Register the client only once it is authenticated, so that a failed login is never visible to other users.
+	s.ClientMgr.Add(c)
+	defer c.Disconnect()
 
 	if clientLogin.GetField(FieldUserName).Data != nil {
 		if c.Authorize(AccessAnyName) {
